@@ -1,7 +1,7 @@
 """Which rules decide which property."""
 from __future__ import annotations
 
-from .rules import frag, c01, c02, c03, c11, c18, c19, c20
+from .rules import frag, c01, c02, c03, c11, c14, c18, c19, c20
 
 ASSUME = [
     'stdlib ast and re._parser front ends are correct',
@@ -108,6 +108,30 @@ PROPERTIES = {
             ('C20-R2', c20.rule_decode_only_raw, 'quick'),
             ('C20-R3', c20.rule_translation_table, 'quick'),
             ('C20-R4', c20.rule_normalise_before_expand, 'quick'),
+        ],
+    },
+    'C14': {
+        'explanation': 'static analysis of /repo/wcmatch/wcmatch.py: bit-vector tables of the flag words, path enumeration of '
+                       'the file loop (exactly one of on_match/on_skip, skip accounting), decision tables of the validity '
+                       'predicates, in-place pruning of the os.walk list',
+        'assumptions': ASSUME + ['os.walk honours in-place edits of its dirs list in top-down mode (documented stdlib behaviour)'],
+        'rules': [
+            ('C14-R1', c14.rule_wcmatch_flags, 'quick'),
+            ('C14-R2', c14.rule_match_or_skip, 'quick'),
+            ('C14-R3', c14.rule_wcmatch_predicates, 'quick'),
+            ('C14-R4', c14.rule_pruning, 'quick'),
+        ],
+    },
+    'C15': {
+        'explanation': 'control-flow analysis of WcMatch._walk / imatch: every CFG cycle polls the abort flag with an exiting '
+                       'true edge, who-may-write rule for _abort and _skipped, dominance of the per-run prologue, yield operands',
+        'assumptions': ASSUME + ['kill() from another thread at an arbitrary instant is not analysed (plain attribute, no synchronisation)'],
+        'rules': [
+            ('C15-R1', c14.rule_abort_polls, 'quick'),
+            ('C15-R2', c14.rule_abort_flag_writers, 'quick'),
+            ('C15-R3', c14.rule_run_prologue, 'quick'),
+            ('C15-R4', c14.rule_match_or_skip, 'quick'),
+            ('C15-R4', c14.rule_yield_passthrough, 'quick'),
         ],
     },
 }
